@@ -174,16 +174,6 @@ impl Pool {
         Ok(idx)
     }
 
-    pub fn utf8(&mut self, s: &JStr) -> Result<u16, String> {
-        self.get(&CpKey::Utf8(s.clone()))
-    }
-    pub fn utf8_str(&mut self, s: &str) -> Result<u16, String> {
-        self.get(&CpKey::Utf8(JStr::from_str(s)))
-    }
-    pub fn class(&mut self, s: &JStr) -> Result<u16, String> {
-        self.get(&CpKey::Class(s.clone()))
-    }
-
     /// Ends the collect phase: adds unused entries and duplicates, orders the
     /// pool and assigns final indices.
     pub fn finalize(&mut self, layout: &Layout) -> Result<(), String> {
